@@ -312,6 +312,20 @@ def validUniform (numNodes : Nat) (maxDemand : Int) (coordDraw : List (List Rat)
 instance (n : Nat) (m : Int) (cd : List (List Rat)) (dd : List Int) : Decidable (validUniform n m cd dd) := by
   unfold validUniform; infer_instance
 
+/-- the support the CODE draws from (audit r4 #1): `jax.random.randint(key, (n + 1,), minval=1, maxval=max_demand)` — the
+upper bound is EXCLUSIVE, and when `max_demand ≤ 1` the empty range is widened to a span of 1 and `minval = 1` is returned.  So
+every demand draw `d` satisfies `1 ≤ d ≤ max 1 (max_demand − 1)`: a subset of the documented range `[1, max_demand]`
+(`validUniform`) when `max_demand ≥ 1`, and OUTSIDE it when `max_demand ≤ 0` (which `CVRP.__init__` accepts).  The same
+support is derived from the source by the draw-range translator: `Props.C10.cvrp_demand_draw_tied`. -/
+def validUniformCode (numNodes : Nat) (maxDemand : Int) (coordDraw : List (List Rat)) (demandDraw : List Int) :
+    Prop :=
+  coordDraw.length = numNodes + 1 ∧ demandDraw.length = numNodes + 1 ∧
+  (∀ p ∈ coordDraw, p.length = 2 ∧ ∀ x ∈ p, 0 ≤ x ∧ x < 1) ∧
+  (∀ d ∈ demandDraw, 1 ≤ d ∧ d ≤ max 1 (maxDemand - 1))
+
+instance (n : Nat) (m : Int) (cd : List (List Rat)) (dd : List Int) : Decidable (validUniformCode n m cd dd) := by
+  unfold validUniformCode; infer_instance
+
 /-- generator certificate, evaluated on the implementation's reset states: shapes; coordinates in `[0, 1)`;
 depot demand 0; every customer demand an integer of `[1, max_demand]` and at most the vehicle's capacity;
 capacity = `max_capacity`; vehicle at the depot; only the depot visited; trajectory all depot; one visit counted -/
